@@ -92,6 +92,7 @@ type SpecFunc struct {
 type Axiom struct {
 	Name  string
 	Text  string
+	BV    bool // lemma over machine bit-vectors (arith bv)
 	Lemma bool
 	Props []string
 	Line  int
@@ -262,11 +263,16 @@ func parseContractLine(body, path string, line int, stub bool, cf *ContractFile,
 		return nil
 	case word == "axiom" || word == "lemma":
 		props, r := takeTags(rest)
+		bv := false
+		if strings.HasPrefix(r, "bv ") {
+			bv = true
+			r = strings.TrimSpace(r[3:])
+		}
 		i := strings.Index(r, ":")
 		if i < 0 {
 			return fmt.Errorf("axiom/lemma needs a name")
 		}
-		cf.Axioms = append(cf.Axioms, &Axiom{Name: strings.TrimSpace(r[:i]), Text: strings.TrimSpace(r[i+1:]), Lemma: word == "lemma", Props: props, Line: line, File: path})
+		cf.Axioms = append(cf.Axioms, &Axiom{Name: strings.TrimSpace(r[:i]), Text: strings.TrimSpace(r[i+1:]), Lemma: word == "lemma", BV: bv, Props: props, Line: line, File: path})
 		return nil
 	case word == "guard":
 		// guard T: f1, f2 by mu inv expr
